@@ -27,7 +27,9 @@ def run(ctx):
         if not any(v["key"] == key for v in V):
             V.append({"key": key, "what": what, "replay": dict(rp or {}, kind="c18", tree=tree_hash())})
     J, tup = load()
-    t = tup(J["halofit"]["halofit_pnl"]["tree"])
+    have_term = "tree" in J.get("halofit", {}).get("halofit_pnl", {})
+    if not have_term:
+        out["broken"].append({"kind": "translator", "what": "no generated term for halofit (the body no longer translates); generated-term comparison skipped, property oracles still run"})
     r = rng("c18")
     reqs, exp = [], []
     ncase = 0
@@ -152,7 +154,7 @@ def run(ctx):
                 j_ = int(np.argmax(np.abs(nb[lowb] / db[lowb] - 1)))
                 viol("lowk-identity/boundary", f"non-linear spectrum differs from the linear one at k={kb[lowb][j_]:.4g} <= 0.005 (rel. dev {float(np.abs(nb[lowb][j_] / db[lowb][j_] - 1)):.3g}) on a grid containing the cut wavenumber itself",
                      {"k": float(kb[lowb][j_]), "takahashi": tak})
-        res = eval_lean_many(reqs)
+        res = eval_lean_many(reqs) if have_term else ["no generated term"] * len(reqs)
         nbad = 0
         for (got, desc), g in zip(exp, res):
             if isinstance(g, str) or not close(got, g, rtol=1e-9).all():
